@@ -24,6 +24,9 @@ for e in kf:
         e["commit"] = by_subj[subj]; e["commit_subject"] = subj; used.add(by_subj[subj])
     else:
         print("UNMATCHED entry:", e.get("property"), c, "|", (e.get("what") or "")[:80])
+for e in kf:      # the one-line form of a repaired defect: "fixed: property=<id> <commit> <what failed>"
+    if e.get("status") == "fixed":
+        e["line"] = "fixed: property=%s %s %s" % (e.get("property"), e.get("commit"), " ".join(str(e.get("what") or "").split()))
 json.dump(kf, open(os.path.join(V, "known_findings.json"), "w"), indent=1)
 for h, s in main:
     if s.startswith("fix:") and h not in used:
